@@ -9,6 +9,7 @@ import math
 import traceback
 from fractions import Fraction as F
 
+import common as C
 import netgen as NG
 from exnum import EPS, Ex, frac
 
@@ -360,13 +361,17 @@ def run_cfg(cfg, mode="exact", pids=("C01", "C03", "C06", "C12"), orchestration=
     buf = io.StringIO()
     err = None
     mon = mon or Monitor(mode, pids, cfg=cfg)
+    mon.too_slow = False
     try:
-        with contextlib.redirect_stdout(buf):
+        with contextlib.redirect_stdout(buf), C.time_limit(300):
             if model is None:
                 model = NG.build(cfg, mode, orchestration)
             model._verif_pre = mon.on_pre
             model._verif_post = mon.on_post
             model.run(dates=dates, verbose=False) if dates is not None else model.run(verbose=False)
+    except C.TooSlow:
+        mon.too_slow = True          # exact rationals exploded: the model is dropped from the sample (counted by the callers)
+        mon.viol = []
     except Exception as ex:
         tb = traceback.extract_tb(ex.__traceback__)
         where = [f"{fr.filename.split('/')[-1]}:{fr.lineno} {fr.name}" for fr in tb if "wsimod" in fr.filename][-3:]
